@@ -446,6 +446,8 @@ def honest_twin(case):
 
 
 def twin_wanted(c):
+    if any(s.get("fault", 0) > 0 for s in c["steps"]):
+        return False      # which call is the k-th depends on map iteration order inside the services: two runs need not fail at the same place
     return (c.get("tag") in ("sweep", "random", "corpus") or c.get("tag", "").startswith("history")) and any(s["claim"] for s in c["steps"])
 
 
